@@ -18,6 +18,7 @@ import (
 	"strings"
 
 	"mvdan.cc/garble/internal/literals"
+	"mvdan.cc/garble/internal/verifhook"
 )
 
 const buildIDSeparator = "/"
@@ -375,5 +376,6 @@ func hashWithCustomSalt(salt []byte, name string) string {
 			b64Name[0] = toLower(b64Name[0])
 		}
 	}
+	verifhook.Name(salt, flagSeed.bytes, name, b64Name)
 	return string(b64Name)
 }
